@@ -344,8 +344,12 @@ def run(tier):
     b = vlib.build_property("C05")
     vlib.proof_coverage(res, b, [
         "extraction (ExtrOcamlBasic only) + ocaml/driver.ml for the correspondence run (build/alloc)",
-        "hand model coq/model/Alloc.v tied by correspondence only (device H); round_up additionally by translation",
-        "the random module is not modelled: the theorems quantify over every oracle stream"])
+        "hand model coq/model/Alloc.v tied by correspondence only (device H); round_up additionally by translation "
+        "(gen_round_up_is_model)",
+        "the random module is not modelled: the theorems quantify over every oracle stream (random.randint results); "
+        "the harness records Python's own results or supplies adversarial ones and feeds them to the model",
+        "modelled, not verified: Python's sorted()/list/dict semantics (stable sort, insertion order), object identity of "
+        "LiveRange/Tensor; one tensor per live range in the Linear model (fused ranges are not modelled)"])
     okx, xlog = vlib.build_extraction("alloc")
     rng = random.Random(vlib.seed())
     t_start = time.time()
@@ -436,8 +440,8 @@ def run(tier):
         pk = peak(r)
         mi = rng.choice([None, 0, 0, 1, 7, 100, 600, 1500])
         lim = rng.choice([0, pk, pk + 16, 1 << 32, 1 << 32])
-        if mi is None and lim < (1 << 32) and (len(r) > 5 or (tier == "quick" and k % 50)):
-            lim = 1 << 32        # max_iterations None with an unreachable limit means 99999 passes
+        if mi is None and lim < (1 << 32) and (len(r) > 5 or k % (50 if tier == "quick" else 25)):
+            lim = 1 << 32        # max_iterations None with an unreachable limit means 99999 passes: only a few
         adversarial = (k % 3 == 1)
         hcases.append((r, mi, lim, adversarial))
     himpl = []
@@ -519,9 +523,12 @@ def run(tier):
         "greedy_overlaps_in_zero_size_stream(outside hypothesis 0<size)": zero_overlaps,
         "hillclimb_randint_errors": len(known_p8),
     })
-    res.assumptions += ["sizes and times are Python ints; 0 <= start_time (HillClimb indexes lists by time)",
-                        "Greedy: 0 < size (Tensor.storage_size() never returns 0); all: 0 < alignment",
-                        "Linear: tensors declared equivalent have equal sizes"]
+    res.assumptions += ["sizes and times are Python ints; HillClimb: 0 <= start_time, 0 <= size, 0 < alignment and "
+                        "sum(size + alignment) <= 2^63 (the initial pass cannot exceed best_size = 1 << 63)",
+                        "Greedy: 0 < size (Tensor.storage_size() never returns 0; greedy_zero_size_refuted otherwise), 0 < alignment",
+                        "Linear: 0 < granularity, 0 <= size, tensors declared equivalent have equal sizes",
+                        "total == highest end address is read in each allocator's end-of-buffer convention (DESIGN.md C05): Greedy "
+                        "and Linear pad the last buffer to its alignment, HillClimb does not"]
 
     for key, detail in known_p8[:1]:
         res.violation(key, detail, "HillClimbAllocator.attempt_bottleneck_fix: random.randint(0, len(turn_list) - 2) raised "
